@@ -1296,6 +1296,25 @@ def GENGZ(ctx):
         for k in (0, 1, 2, 3, 4):
             ctx.corr("gen get_complete_accessor i%d %s" % (k, "bT" if k % 2 else "bF"))
         ctx.corr("gen obtain_latters i5 i0")
+    # graph views: accessor <-> latter map, trimming, vertex listing, leaf queries
+    for it in range(ctx.n(150, 3000)):
+        k = rng.choice([1, 2, 2, 3])
+        g = rng.choice([gen.rand_arc_subset, gen.rand_profile_graph])(rng, k)
+        acc = _wire_acc(g.rows())
+        lm = {u: [succ(u, j, k) for j in g.live(u)] for u in g.vertices()}
+        lmt = "D{" + ";".join("i%d:L[%s]" % (u, ",".join("i%d" % x for x in ls)) for u, ls in lm.items()) + "}"
+        ctx.corr("gen accessor_to_latter_map %s bF" % acc)
+        ctx.corr("gen obtain_vertices %s" % acc)
+        ctx.corr("gen remove_useless %s i%d bF" % (lmt, rng.choice([1, 2, 2, 3, 4])))
+        ctx.corr("gen latter_map_to_accessor %s i%d %s bF" % (lmt, k, rng.choice(["n", "n", "i1", "i2", "i3"])))
+        v, d = rng.randrange(g.n), rng.randrange(0, 4)
+        ctx.corr("gen obtain_leaf_vertices i%d i%d %s n" % (v, d, acc))
+        ctx.corr("gen obtain_leaf_vertices i%d i%d n %s" % (v, d, lmt))
+        ctx.case("gzviews " + g.token(), True, "gen:graph-views")
+    if ctx.part == 0:
+        a2 = _wire_acc(gen.gc_balanced2().rows())
+        ctx.corr("gen obtain_leaf_vertices i1 i1 n n")
+        ctx.corr("gen obtain_leaf_vertices i1 i1 %s D{i1:L[i4,i7]}" % a2)
 
 
 def C16(ctx):
